@@ -848,16 +848,16 @@ class Container:
             ratio = volume_to_transfer / source_container.volume
 
         elif unit == 'g':
-            # rounded on the scale amounts are stored on (micrograms when moles are stored as micromoles), not in grams
-            mass_scale = Unit.convert_prefix_to_multiplier(config.moles_storage_unit[:-3])
-            mass_to_transfer = round(quantity_to_transfer / mass_scale, config.internal_precision) * mass_scale
+            # (a mass is not stored anywhere: it is rounded relative to itself - to the digits a float carries - and
+            # compared relative to what the source holds, whatever the storage units and whatever is stored in U)
+            mass_to_transfer = float(f"{quantity_to_transfer:.15g}")
             total_mass = 0
             for substance, amount in source_container.contents.items():
                 source_unit = 'U' if substance.is_enzyme() else config.moles_storage_unit
                 total_mass += Unit.convert_from(substance, amount, source_unit, "g")
             if total_mass == 0:
                 raise ValueError(f"There is no mass in the source container ({source_container.name}).")
-            requested, available = mass_to_transfer / mass_scale, total_mass / mass_scale  # (compared on that scale too)
+            requested, available = mass_to_transfer / total_mass, 1.  # (as a share of what the source holds)
             ratio = mass_to_transfer / total_mass
         elif unit == 'mol':
             moles_to_transfer = Unit.convert_to_storage(quantity_to_transfer, 'mol')
